@@ -274,7 +274,9 @@ impl<'a> Dfa<'a> {
         }
 
         for equivalence_class in p.iter() {
-            let old_source_state = *equivalence_class.iter().next().unwrap();
+            // The states of a class are kept in a hash set whose iteration order differs
+            // between runs, so always let the state created first represent its class.
+            let old_source_state = *equivalence_class.iter().min().unwrap();
             let new_source_state = state_mappings.get(&old_source_state).unwrap();
 
             for old_target_state in self.graph.neighbors(old_source_state) {
